@@ -1,6 +1,8 @@
 import QRV.Props.C01
 import QRV.Props.C02
 import QRV.Props.C18
+import QRV.Lemmas.EncScan
+import QRV.Lemmas.EncMask
 /-
 C10 — automatic masking picks the best pattern; explicit masks are honoured.
 
@@ -28,7 +30,30 @@ explicit pattern m, and m is in range -/
 theorem qr_auto_is_explicit (q : QRCode) (hv : QR.Valid q) (hauto : q.mask = -1) :
     ∃ img m, Model.QR.encodeToBitmap q = .ok img ∧ 0 ≤ m ∧ m ≤ 7 ∧
       Model.QR.encodeToBitmap { q with mask := m } = .ok img := by
-  sorry
+  obtain ⟨img, _, _, m, _, h1, hm, h2, _⟩ := Lemmas.Enc.auto_argmin q hv hauto
+  exact ⟨img, (m : Int), h1, by omega, by omega, h2⟩
+
+/-- QR, automatic masking is an argmin.  With `used` the function-module map of the version and
+`sym` the symbol before masking (codewords placed, version information written), the mask `m` the
+selection loop returns is such that: all eight candidate penalties `qrScore … j` exist (`sc j`),
+`sc m` is their minimum and `m` is the first index attaining it; the emitted symbol is `sym` with
+the format information of (level, m), masked with pattern m, and it is what the encoder emits when
+asked for the explicit pattern `m`. -/
+theorem qr_auto_is_argmin (q : QRCode) (hv : QR.Valid q) (hauto : q.mask = -1) :
+    ∃ (img used sym : Image) (m : Nat) (sc : Nat → Nat),
+      Model.QR.encodeToBitmap q = .ok img ∧ m < 8 ∧
+      Model.QR.encodeToBitmap { q with mask := (m : Int) } = .ok img ∧
+      imgAt Model.QR.usedList q.version = .ok (some used) ∧
+      (∃ ibuf base img1, Model.QR.encodeToBits q {} = .ok ibuf ∧
+        imgAt Model.QR.baseList q.version = .ok (some base) ∧
+        Model.QR.placeLoop used (16 + 4 * q.version) ((16 + 4 * q.version + 3) * (16 + 4 * q.version + 3)).toNat
+          { x := 16 + 4 * q.version, y := 16 + 4 * q.version, dy := -1 } ibuf base = .ok img1 ∧
+        Lemmas.RT.versionStep q.version (16 + 4 * q.version) img1 = .ok sym) ∧
+      Lemmas.RT.chooseMask (-1) q.level (16 + 4 * q.version) used sym = .ok (m : Int) ∧
+      Lemmas.RT.finish q.level (16 + 4 * q.version) used sym (m : Int) = .ok img ∧
+      (∀ j, j < 8 → qrScore q.level (16 + 4 * q.version) used sym j = .ok (sc j)) ∧
+      (∀ j, j < 8 → sc m ≤ sc j) ∧ (∀ j, j < m → sc m < sc j) :=
+  Lemmas.Enc.auto_argmin q hv hauto
 
 /-- Micro QR: the selection loop returns the FIRST pattern attaining the MAXIMUM edge score among
 the four candidates -/
@@ -38,15 +63,15 @@ theorem micro_auto_is_argmax (img used : Image) (m : Int) (h : Model.Micro.autoM
       Model.Micro.maskScore img used 2 = .ok s2 ∧ Model.Micro.maskScore img used 3 = .ok s3 ∧
       0 ≤ m ∧ m ≤ 3 ∧
       (let ss := [s0, s1, s2, s3]
-       ∀ j, j < 4 → ss[j]! ≤ ss[m.toNat]! ∧ (j < m.toNat → ss[j]! < ss[m.toNat]!)) := by
-  sorry
+       ∀ j, j < 4 → ss[j]! ≤ ss[m.toNat]! ∧ (j < m.toNat → ss[j]! < ss[m.toNat]!)) :=
+  Lemmas.Enc.micro_auto_is_argmax img used m h
 
 /-- the generic fact behind both loops: a strict-comparison scan returns the first index attaining
 the extremum -/
 theorem first_min_scan (ss : List Nat) (hne : ss ≠ []) :
     let r := (List.range ss.length).foldl (fun (acc : Nat × Nat) i => if ss[i]! < acc.2 then (i, ss[i]!) else acc) (0, ss[0]!)
-    r.1 < ss.length ∧ r.2 = ss[r.1]! ∧ (∀ j, j < ss.length → r.2 ≤ ss[j]!) ∧ (∀ j, j < r.1 → r.2 < ss[j]!) := by
-  sorry
+    r.1 < ss.length ∧ r.2 = ss[r.1]! ∧ (∀ j, j < ss.length → r.2 ≤ ss[j]!) ∧ (∀ j, j < r.1 → r.2 < ss[j]!) :=
+  Lemmas.Enc.first_min_scan ss hne
 
 /-- explicit masks: the canvas of pattern m is the standard's formula on every module -/
 theorem qr_explicit_mask_canvas (m : Nat) (h : m < 8) :
